@@ -20,17 +20,17 @@ type TV struct {
 }
 
 type Env struct {
-	x     *Exec
-	fr    *Frame
-	st    *State
-	old   *State
-	vars  map[string]TV
-	subs  map[string]*SExpr
-	pkg   *types.Package
-	inOld bool
-	locals func(name string) (TV, bool)
-	err   error
-	atArgs []TV // arg(k) inside atcall clauses
+	x         *Exec
+	fr        *Frame
+	st        *State
+	old       *State
+	vars      map[string]TV
+	subs      map[string]*SExpr
+	pkg       *types.Package
+	inOld     bool
+	locals    func(name string) (TV, bool)
+	err       error
+	atArgs    []TV // arg(k) inside atcall clauses
 	entryVars map[string]TV
 }
 
@@ -559,12 +559,24 @@ func (env *Env) call(e *ast.CallExpr) TV {
 			}
 			return intTV(Ite(Ge(a, b), a, b))
 		case "errIs":
-			a, ok1 := env.expr(args[0]).V.(VIface)
-			b, ok2 := env.expr(args[1]).V.(VIface)
+			asIface := func(tv TV) (VIface, bool) {
+				if v, ok := tv.V.(VIface); ok {
+					return v, true
+				}
+				// a pointer-typed value (e.g. the *httpError sentinel errNotFound) used as an error
+				if vt, ok := tv.V.(VTerm); ok && tv.T != nil {
+					if _, isPtr := tv.T.Underlying().(*types.Pointer); isPtr {
+						return VIface{Tag: Ite(Eq(vt.T, IntLit(0)), IntLit(0), IntLit(x.eng.typeTag(tv.T))), Val: vt.T}, true
+					}
+				}
+				return VIface{}, false
+			}
+			a, ok1 := asIface(env.expr(args[0]))
+			b, ok2 := asIface(env.expr(args[1]))
 			if !ok1 || !ok2 {
 				return env.fail("errIs needs error values")
 			}
-			return boolTV(x.errIs(a, b))
+			return boolTV(x.errIsAt(env.st, a, b))
 		case "tagOf":
 			if a, ok := env.expr(args[0]).V.(VIface); ok {
 				return intTV(a.Tag)
@@ -658,6 +670,32 @@ func (env *Env) call(e *ast.CallExpr) TV {
 			h1, _ := tvTerm(env.expr(args[0]))
 			h2, _ := tvTerm(env.expr(args[1]))
 			return boolTV(x.hdrEq(env.state(), env.stateFor(args[1]), h1, h2))
+		case "hdrSameExcept":
+			// hdrSameExcept(h, "K1", "K2", ...): the header map h is unchanged since the pre-state
+			// except possibly at the listed keys
+			h, _ := tvTerm(env.expr(args[0]))
+			var ks []Term
+			for _, a := range args[1:] {
+				k, _ := tvTerm(env.expr(a))
+				ks = append(ks, x.canon(k))
+			}
+			os := env.old
+			if os == nil {
+				os = env.st
+			}
+			var cs []Term
+			comps := map[string]Sort{"#dom": SBool, "#b": SInt, "#o": SInt, "#l": SInt, "#c": SInt}
+			for _, c := range []string{"#dom", "#b", "#o", "#l", "#c"} {
+				srt := arrOf(arrKV(SStr, comps[c]))
+				nw := Select(x.heapGet(env.st, kHdr+c, srt), h)
+				ol := Select(x.heapGet(os, kHdr+c, srt), h)
+				t := ol
+				for _, k := range ks {
+					t = Store(t, k, Select(nw, k))
+				}
+				cs = append(cs, Eq(nw, t))
+			}
+			return boolTV(And(cs...))
 		case "blen":
 			b, _ := tvTerm(env.expr(args[0]))
 			return intTV(x.bufLen(env.state(), b))
@@ -683,6 +721,11 @@ func (env *Env) call(e *ast.CallExpr) TV {
 				return boolTV(x.isConnErr(a))
 			}
 			return env.fail("isConnErr needs an error")
+		case "isHTTPErr":
+			if a, ok := env.expr(args[0]).V.(VIface); ok {
+				return boolTV(Neq(x.httpRef(a), IntLit(0)))
+			}
+			return env.fail("isHTTPErr needs an error")
 		case "httpStatus":
 			if a, ok := env.expr(args[0]).V.(VIface); ok {
 				return intTV(x.httpErrCode(env.state(), a))
